@@ -3,6 +3,7 @@ package h
 import (
 	"context"
 	"fmt"
+	"runtime"
 	"sort"
 	"sync"
 
@@ -133,7 +134,19 @@ func (c12Prop) Check(c Case) Outcome {
 		var out ExecOut
 		cfg := c.Engine
 		cfg.Procs = 0 // GOMAXPROCS is set once for the whole round
-		out = execOn(context.Background(), eng, st, cfg, j.q, j.w, nil)
+		qry, err := NewQuery(eng, st, cfg, j.q, j.w)
+		if err != nil {
+			return Result{Type: "none", Err: err, ErrClass: classify(err)}
+		}
+		res := qry.Exec(context.Background())
+		// The caller still holds the result: a Cancel after Exec has returned, and whatever the
+		// other goroutines do meanwhile, must not touch it.
+		qry.Cancel()
+		for y := 0; y < 3; y++ {
+			runtime.Gosched()
+		}
+		out.Res = Canon(res)
+		qry.Close()
 		return out.Res
 	}
 	body := func() {
